@@ -76,7 +76,9 @@ func c07Exec(op string) string {
 			// Exists is "ValuesForPath yields something" (a nil value is a value)
 			note := ""
 			vs, verr := mxj.Map(m).ValuesForPath(path, subs...)
-			if (verr == nil) != (err == nil) {
+			if idxOnWild(path) {
+				// outside the domain: which value an index picks below a wildcard depends on map order
+			} else if (verr == nil) != (err == nil) {
 				note = fmt.Sprintf("EXISTS Exists error=%v but ValuesForPath error=%v", err, verr)
 			} else if err == nil && ok != (len(vs) > 0) {
 				note = fmt.Sprintf("EXISTS Exists=%v but ValuesForPath yields %d value(s)", ok, len(vs))
@@ -117,6 +119,8 @@ func c07Exec(op string) string {
 		note := ""
 		vs, verr := mxj.Map(m).ValuesForPath(path)
 		switch {
+		case idxOnWild(path):
+			// outside the domain (see above)
 		case verr != nil:
 			if err == nil {
 				note = "FIRSTVALUE ValuesForPath fails but ValueForPath succeeds"
@@ -139,7 +143,7 @@ func c07Exec(op string) string {
 			}
 		}
 		// the string forms: the first value printed with %v, or an error / the empty string
-		if note == "" {
+		if note == "" && !idxOnWild(path) {
 			sv, serr := mxj.Map(m).ValueForPathString(path)
 			se := mxj.Map(m).ValueOrEmptyForPathString(path)
 			switch {
@@ -528,4 +532,14 @@ func init() {
 		QuickN:    4000,
 		ThoroughN: 200000,
 	})
+}
+
+// idxOnWild: some step of the path is a wildcard carrying an index ("*[1]").
+func idxOnWild(path string) bool {
+	for _, s := range strings.Split(path, ".") {
+		if strings.HasPrefix(s, "*[") {
+			return true
+		}
+	}
+	return false
 }
